@@ -226,8 +226,8 @@ class Program:
             for fi in self.functions.values():
                 if fi.parent is None:
                     self._count('strip_logging', strip_logging(fi.node, loggers.get(fi.module.name, set())))
-                    self._count('normalise_method_aliases', normalise_method_aliases(fi.node))
                     self._count('normalise_self_aliases', normalise_self_aliases(fi.node))
+                    self._count('normalise_method_aliases', normalise_method_aliases(fi.node))
                     self._count('normalise_dims_copies', normalise_dims_copies(fi.node))
                     self._count('normalise_enumerated_dicts', normalise_enumerated_dicts(fi.node))
                     self._count('normalise_local_generators', normalise_local_generators(fi.node))
